@@ -129,7 +129,7 @@ func nextPrime(n uint64) uint64 {
 
 func main() {
 	run := vr.New("C06", "exploration")
-	run.Rule("complete key exchanges of the real client against reference server R3 (default schedule under the controlled scheduler), followed by the first encrypted request: (a) server alphabets pq(4) x RSA key(3) x group(2) x server_nonce leading-zero class(3) x g_a class(2) x inner-data padding(16) x fingerprint list(3) at <=2 deviations; (b) every client seed in [0,K) of the owned random stream; (c) each of nonce, new_nonce, RSA ciphertext, auth key g^ab, new_nonce_hash1 forced to 1 and 2 leading zero bytes (client draws forced through the owned seam; server secret chosen adaptively after learning g_b); a committed seed table for g_b; non-trivial = the exchange reached dh_gen_ok")
+	run.Rule("complete key exchanges of the real client against reference server R3 (default schedule under the controlled scheduler), followed by the first encrypted request: (a) server alphabets pq(4) x RSA key(3) x group(2) x server_nonce leading-zero class(3) x g_a class(2) x inner-data padding(16) x fingerprint list(3) at <=2 deviations; (b) every client seed in [0,K) of the owned random stream; (c) each of nonce, new_nonce, RSA ciphertext, auth key g^ab, new_nonce_hash1 forced to 1 and 2 leading zero bytes, and the initial salt forced to 1, 2 and 8 leading zero bytes (nonces sharing a prefix) (client draws forced through the owned seam; server secret chosen adaptively after learning g_b); a committed seed table for g_b; non-trivial = the exchange reached dh_gen_ok")
 	run.Assume("reference server R3 (harness/ref/authsrv) with committed RSA-2048 test keys; the client's random draws (nonces, DH exponent, Pollard-rho draws, padding) come from the owned deterministic stream", "leading-zero class coverage is measured and reported (class table), not assumed")
 	r := &runner{run: run, table: classTable{}}
 	base := hs.Base()
@@ -232,6 +232,14 @@ func main() {
 		r.exchange(fmt.Sprintf("forced nonce lz=%d", lz), base, 7, [][]byte{n, newNonce0}, fmt.Sprintf("forced|nonce-lz%d", lz))
 		nn := append(make([]byte, lz), newNonce0[lz:]...)
 		r.exchange(fmt.Sprintf("forced new_nonce lz=%d", lz), base, 7, [][]byte{nonce0, nn}, fmt.Sprintf("forced|new_nonce-lz%d", lz))
+	}
+	// new_nonce and server_nonce beginning with the same byte(s): the initial salt new_nonce[0:8] xor
+	// server_nonce[0:8] then begins with zero bytes although neither nonce does
+	for _, n := range []int{1, 2, 8} {
+		cfg := base
+		cfg.ServerNonce = append([]byte{}, base.ServerNonce...)
+		copy(cfg.ServerNonce[:n], newNonce0[:n])
+		r.exchange(fmt.Sprintf("forced salt with %d leading zero bytes (nonces share a prefix)", n), cfg, 7, [][]byte{nonce0, newNonce0}, fmt.Sprintf("forced|salt-lz%d", n))
 	}
 	// RSA ciphertext with a leading zero byte: search new_nonce upward in the reference
 	{
